@@ -336,3 +336,33 @@ func dWFQSticky(w *world) {
 }
 
 func init() { registerScenario("D_wfq_sticky", dWFQSticky) }
+
+// dDupSack: a DATA packet is duplicated by the network, the copy arrives after the original
+// was acknowledged; the duplicate must be acknowledged at once (C19, RFC 9260 Sec 6.2).
+func dDupSack(w *world) {
+	x, mon, ok := directedStart(w, directedConfig(w, false))
+	if !ok {
+		return
+	}
+	mon.props["C19.ack"] = true
+	mon.s[0].ample, mon.s[1].ample = true, true
+	w.params["phase_ms"] = 2000
+	w.params["keep_ample"] = 1
+	x.dirs = []*xferDir{{sid: 1, from: 0, sizes: []int{100, 100}, preopen: true, gaps: []time.Duration{0, time.Second}}}
+	w.net.planDelayBy = 400 * time.Millisecond
+	done := false
+	w.net.filter = func(dir int, idx int, p *wirePacket) planAction {
+		if dir == 0 && !done {
+			for _, c := range p.chunks {
+				if c.isData() {
+					done = true
+					return planDupLate
+				}
+			}
+		}
+		return planNone
+	}
+	runXfer(w, x, mon, false, false)
+}
+
+func init() { registerScenario("D_dup_sack", dDupSack) }
